@@ -25,6 +25,37 @@ reg(
     "DESIGN.md §3 C13",
 )
 
+reg(
+    "C09",
+    "exploration",
+    "complete enumeration of boundary/member values per controller + Hypothesis assignment histories against a model built from the YAML",
+    "All 43 types x all spec'd controllers x boundary/interior/invalid values x strict/lenient x setattr/constructor are "
+    "enumerated completely against the YAML (defaults, accept, reject-with-ControllerValueError, previous value kept); "
+    "random histories add varied previous values and the in-range invariant after every step.",
+    "Trusts the YAML tables; unit-dependent ranges only claimed in-range; exception class for invalid enum input not claimed.",
+    "DESIGN.md §3 C09",
+)
+reg(
+    "C10",
+    "exploration",
+    "complete enumeration of the finite (controller, unit, value) domain against expected encodings computed from the YAML",
+    "thorough enumerates every integer of every controller range under every unit variant (about 3.7 M points, exhaustive), "
+    "every enum member and boolean; quick strides the large ranges. Oracles: stored value = v - min (min<0) / v, bijective, "
+    "set_raw inverse, pattern value 0 at min, 0x8000 at max, monotone; compact = v - min.",
+    "Trusts the YAML bounds; MetaModule user-defined controllers are represented by 3 of the 96 identical ones.",
+    "DESIGN.md §3 C10",
+)
+reg(
+    "C11",
+    "exploration",
+    "complete enumeration of single values and option pairs + Hypothesis random assignment sequences; independent bit-packing oracle from the YAML; save/load round trip in both contexts",
+    "Bit-disjointness, every representable value of every option alone, all ordered option pairs over edge values, clamps, "
+    "inversion and exclusivity are enumerated completely; every case is saved and reloaded stand-alone and inside a project "
+    "and the options CHDT is compared byte for byte with a packing computed from the YAML layout.",
+    "Trusts the YAML layout and vlib.chunktools' chunk parsing.",
+    "DESIGN.md §3 C11",
+)
+
 NOT_APPLICABLE = {}
 
 ALL = ["C%02d" % i for i in range(1, 21)]
